@@ -473,6 +473,11 @@ class SP(Robot):
         self._top_joints_local = top_joints_copy
         self._bottom_joints_init = self._bottom_joints_local.conj().transpose()
         self._top_joints_init = self._top_joints_local.conj().transpose()
+        for i in range(6):
+            self._bottom_joint_angles_init[i] = self._nominal_plate_transform @ tm(
+                [top_joints_copy[0, i], top_joints_copy[1, i], top_joints_copy[2, i], 0, 0, 0])
+            self._top_joint_angles_init[i] = self._nominal_plate_transform.inv() @ tm(
+                [bottom_joints_copy[0, i], bottom_joints_copy[1, i], bottom_joints_copy[2, i], 0, 0, 0])
         self._bottom_joints_space = bottom_joints_space_new
         self._top_joints_space = top_joints_space_new
         self.move(old_base_pos)
